@@ -45,9 +45,10 @@ def parse_prec(out):
         p = line.split()
         if not p:
             continue
-        if p[0] in ("prec", "lassoc", "rassoc", "unary_operand", "opnames", "unary_operand_check", "atomcheck"):
+        if p[0] in ("prec", "lassoc", "rassoc", "unary_operand", "opnames", "unary_operand_check", "atomcheck",
+                    "cast_inner", "castcheck"):
             t[p[0]] = p[1:] if p[0] == "opnames" else [int(x) for x in p[1:]]
-        elif p[0] in ("left_binary", "right_binary", "left_unary", "right_unary"):
+        elif p[0] in ("left_binary", "right_binary", "left_unary", "right_unary", "left_cast"):
             t.setdefault(p[0], {})[str(int(p[1]))] = [int(x) for x in p[2:]]
         elif p[0] == "end":
             t["end"] = True
@@ -73,12 +74,13 @@ def coq_source(tables, prec, module_comment):
         lines.append("Definition prec_levels : list N := %s." % coq_list(prec["prec"]))
         lines.append("Definition left_assoc_flags : list N := %s." % coq_list(prec["lassoc"]))
         lines.append("Definition right_assoc_flags : list N := %s." % coq_list(prec["rassoc"]))
-        for name in ("left_binary", "right_binary", "left_unary", "right_unary"):
+        for name in ("left_binary", "right_binary", "left_unary", "right_unary", "left_cast"):
             lines.append("Definition %s_rows : list (list N) := [%s]." % (name, "; ".join(
                 coq_list(prec[name][str(i)]) for i in range(16))))
         lines.append("Definition unary_operand_flags : list N := %s." % coq_list(prec["unary_operand"]))
+        lines.append("Definition cast_inner_flags : list N := %s." % coq_list(prec["cast_inner"]))
         lines.append("Definition ptbl : ptable := mk_ptable left_binary_rows right_binary_rows left_unary_rows "
-                     "right_unary_rows unary_operand_flags.")
+                     "right_unary_rows unary_operand_flags cast_inner_flags left_cast_rows.")
     return "\n".join(lines) + "\n"
 
 
